@@ -6,6 +6,7 @@ driver for the error-classification model (engine `errno`, C25)
   errno <NAME>                                      → the model's number for an errno / SSL_ERROR_* name
   classify <site> <cls> <arg0> <cutoff> <open>      → `<outcome> ret=<ret> cut=<b> open=<b> | D26b=<b> D26c=<b>`   (repaired ladders; then the region predicates)
   classify-orig <site> <cls> <arg0> <cutoff> <open> → the same for the ladders as found (D13, D26)
+  classify2 <site> <cls> <arg0> <cutoff> <open>     → the same with fixes/D26b as well
   connect <code>                                    → accepted | reopenRetry | retry
   region <finding> <site> <cls> <arg0>              → 1 | 0   (Lean region predicate of a known finding)
 -/
@@ -60,6 +61,7 @@ def step (_ : Unit) (line : String) : Unit × String :=
     | none => ((), "bad-op")
   | ["classify", site, cls, n, c, o] => ((), doClassify .fixed site cls n c o)
   | ["classify-orig", site, cls, n, c, o] => ((), doClassify .orig site cls n c o)
+  | ["classify2", site, cls, n, c, o] => ((), doClassify .fixed2 site cls n c o)
   | ["connect", code] =>
     match code.toNat? with
     | some c => ((), match connect c with
